@@ -7,12 +7,13 @@ From Verif Require Import Lib.Base Model.Cover Proofs.CoverBase Proofs.CoverStru
 Section Guard.
 Context {E : Type}.
 
-(* an action body that is present is neither empty ({}: comes back nil = "print $0") nor made
-   of empty blocks only ({ { } }: compiles to no code = "print $0" until a counter is added) *)
+(* an action body that is present and not empty is not made of empty blocks only
+   ({ { } }: compiles to no code = "print $0" until a counter is added).  The empty body {}
+   is fine: it is annotated to itself and compiled to a Nop in both runs. *)
 Definition body_guard (b : option (list (cstmt E))) : bool :=
   match b with
   | None => true
-  | Some [] => false
+  | Some [] => true
   | Some l => negb (forallb codeless_stmt l)
   end.
 (* same for END blocks: "END { { } }" compiles to nothing, and with no rules the input is then
@@ -78,16 +79,14 @@ Proof.
   induction 1 as [|a' a t' t [Hp Hb] _ IH]; intros Hg Hok; [constructor|].
   cbn [forallb] in Hg. apply andb_prop in Hg as [Hg1 Hg2]. cbn [map concat] in Hok. constructor.
   - split; [exact Hp|]. unfold body_rel in Hb. unfold body_prel.
-    destruct (a_body a) as [l|] eqn:Ea, (a_body a') as [l'|] eqn:Ea'; cbn [body_guard] in Hg1.
-    + destruct l as [|s l0]; [discriminate Hg1|]. destruct Hb as (_ & Hne' & He & Hs).
-      apply negb_true_iff in Hg1. split; [|split].
+    destruct (a_body a) as [l|] eqn:Ea, (a_body a') as [l'|] eqn:Ea'; cbn [body_guard] in Hg1; try contradiction.
+    + destruct Hb as (Hemp & He & Hs). split; [|split].
       * split; [exact He|]. split; [exact Hs|]. apply Forall_forall. intros x Hx. apply Hok.
         apply in_or_app. left. exact Hx.
-      * destruct l' as [|s' l0']; [congruence|]. cbn [action_prints].
-        exact (not_codeless_annotated (s' :: l0') (s :: l0) He Hg1).
-      * exact Hg1.
-    + destruct l as [|s l0]; [discriminate Hg1|contradiction].
-    + contradiction.
+      * destruct l' as [|s' l0']; [reflexivity|]. cbn [action_prints].
+        destruct l as [|s l0]; [destruct Hemp as [Hemp _]; discriminate (Hemp eq_refl)|].
+        apply negb_true_iff in Hg1. exact (not_codeless_annotated (s' :: l0') (s :: l0) He Hg1).
+      * destruct l as [|s l0]; [reflexivity|]. apply negb_true_iff in Hg1. exact Hg1.
     + exact I.
   - apply IH; [exact Hg2|]. intros x Hx. apply Hok. apply in_or_app. right. exact Hx.
 Qed.
@@ -378,11 +377,13 @@ Definition prog_block_action : program unit :=
 (* END { { } } with no rules and an input that cannot be read is not modelled here: the toy has no failing input *)
 End Toy.
 
-(* F-C18-1: plainly {} prints nothing; annotated, the body is nil and every record is printed *)
+(* formerly F-C18-1 (fixed): {} prints nothing plainly and nothing when annotated (the body
+   stays a present, empty list; before the fix it came back nil and every record was printed) *)
 Lemma toy_empty_action :
   snd (Toy.run_toy unit (fun _ _ x => x) Toy.prog_empty_action tt) = ONormal unit /\
   s_u _ _ (fst (Toy.run_toy unit (fun _ _ x => x) Toy.prog_empty_action tt)) = (0%nat, 0%nat) /\
-  s_u _ _ (fst (Toy.run_toy cover_array cover_bump (fst (annotate [] MSet Toy.prog_empty_action)) cover_empty)) = (0%nat, 2%nat).
+  s_u _ _ (fst (Toy.run_toy cover_array cover_bump (fst (annotate [] MSet Toy.prog_empty_action)) cover_empty)) = (0%nat, 0%nat)
+  /\ p_actions (fst (annotate [] MSet Toy.prog_empty_action)) = [mkaction [] (Some [])].
 Proof. vm_compute. repeat split. Qed.
 
 (* F-C18-3: plainly { { } } compiles to no code and every record is printed; annotated it prints nothing *)
@@ -390,20 +391,6 @@ Lemma toy_block_action :
   s_u _ _ (fst (Toy.run_toy unit (fun _ _ x => x) Toy.prog_block_action tt)) = (0%nat, 2%nat) /\
   s_u _ _ (fst (Toy.run_toy cover_array cover_bump (fst (annotate [] MSet Toy.prog_block_action)) cover_empty)) = (0%nat, 0%nat).
 Proof. vm_compute. repeat split. Qed.
-
-Theorem transparent_refuted_empty_action : ~ transparent_full_statement.
-Proof.
-  intros H.
-  specialize (H unit Toy.U unit unit unit Toy.ev_start Toy.ev_resume (fun _ => true) tt (fun _ _ => tt)
-                (fun _ _ _ => None) Toy.next_record Toy.print_record (fun u => u) [] cover_array unit
-                cover_bump (fun _ _ x => x) MSet Toy.prog_empty_action eq_refl 5%nat (2%nat, 0%nat) cover_empty tt []).
-  cbn zeta in H. destruct H as [_ H].
-  assert (Hne : snd (run unit Toy.U unit unit unit Toy.ev_start Toy.ev_resume (fun _ => true) tt (fun _ _ => tt)
-                (fun _ _ _ => None) Toy.next_record Toy.print_record (fun u => u) cover_array cover_bump 5
-                (fst (annotate [] MSet Toy.prog_empty_action)) (mkst Toy.U cover_array (2%nat, 0%nat) cover_empty []))
-                <> OFuel unit) by (vm_compute; discriminate).
-  destruct (H Hne) as [Hu _]. vm_compute in Hu. discriminate Hu.
-Qed.
 
 Theorem transparent_refuted_block_action : ~ transparent_full_statement.
 Proof.
@@ -419,6 +406,6 @@ Proof.
   destruct (H Hne) as [Hu _]. vm_compute in Hu. discriminate Hu.
 Qed.
 
-(* the guard excludes exactly these shapes *)
-Lemma toy_guards : guard_ok Toy.prog_empty_action = false /\ guard_ok Toy.prog_block_action = false.
+(* the guard accepts {} and excludes { { } } *)
+Lemma toy_guards : guard_ok Toy.prog_empty_action = true /\ guard_ok Toy.prog_block_action = false.
 Proof. split; reflexivity. Qed.
